@@ -69,7 +69,42 @@ class P:
         ipart = {"name": "ill-formed-expansions-in-context", "harness": "parse", "driver": None, "cases": ill,
                  "impl_ok": lambda c, o: o.startswith("ok ") and fields(o)["E"] != "nil" and located_ok(c, o),
                  "nontrivial": lambda c: True, "distribution": {"cases": len(ill)}}
-        return [tpart, ipart] + c02.token_parts(random.Random(seed + 7), tier, 2000 if tier == "quick" else 30000) + [{"name": "mutants-and-short-strings", "harness": "parse", "driver": None, "cases": cases, "impl_ok": located_ok,
+        # with an alias table: an error in the source after an alias word is located where it stands in the source, whatever the
+        # alias value held (substitutions read by nested lexers included); an error inside the alias text is located inside the source
+        values = ["echo", "echo $(a)", "echo `b`", "echo $((1+2))", "echo \"$(a b)\" ${x:-$(c)}", "echo $(a; b) ", "x=$(a) echo", "echo $(a | b) $(c)",
+                  "echo $(a\nb)", "echo \"`a`\" $(( $(b) ))", "B ", "echo '$(' "]
+        tmpl = ["N x; @; y", "N x | @| y", "N x @)", "N x; @fi", "N && @&& x", "  N x; @; y", "N; N @)", "N $(c; @; d)", "if N; then @fi",
+                "N x; @do", "N <<@< E", "N x; ( @)"]
+        bad_values = ["echo $(a; ; b)", "echo $(a", "echo `a", "echo $((1+", "echo ${x", "echo \"$(a", "echo $(a))", "echo $(a) ; ;", "echo $(if)", "echo $(a) \"${y:-$(b\""]
+        al, aexp = [], {}
+        for v in values:
+            for t in tmpl:
+                src = t.replace("@", "") + "\n"
+                c_ = G.pcase(src, aliases={"N": v, "B": "echo $(z) "})
+                al.append(c_)
+                aexp[c_] = (1, t.index("@") + 1)
+        for v in bad_values:
+            for t in ("N", "N x", "  N", "a; N y", "N\n", "if N; then :; fi", "B N"):
+                c_ = G.pcase(t + ("" if t.endswith("\n") else "\n"), aliases={"N": v, "B": "echo $(z) "})
+                al.append(c_)
+                aexp[c_] = None
+
+        def alias_ok(c, o):
+            if not (o.startswith("ok ") and fields(o)["E"].startswith("syn:")):
+                return False
+            if aexp[c] is None:
+                # the error lies in the alias text, which has no place of its own: it is located inside the source line (the
+                # point where the alias text stands, directly after the alias word, may be a blank)
+                e = fields(o)["E"].split(":")
+                src = unhx(c.split("\t")[0]).decode().split("\n")
+                return unhx(e[1]) == b"t" and 1 <= int(e[2]) <= len(src) and 1 <= int(e[3]) <= len(src[int(e[2]) - 1]) + 1
+            if not located_ok(c, o):
+                return False
+            e = fields(o)["E"].split(":")
+            return (int(e[2]), int(e[3])) == aexp[c]
+        apart = {"name": "error-positions-with-aliases", "harness": "parse", "driver": None, "cases": al, "impl_ok": alias_ok,
+                 "nontrivial": lambda c: True, "distribution": {"cases": len(al), "alias_values": len(values), "ill_formed_alias_values": len(bad_values)}}
+        return [tpart, ipart, apart] + c02.token_parts(random.Random(seed + 7), tier, 2000 if tier == "quick" else 30000) + [{"name": "mutants-and-short-strings", "harness": "parse", "driver": None, "cases": cases, "impl_ok": located_ok,
                  "nontrivial": lambda c: len(unhx(c.split("\t")[0]).split()) >= 2,
                  "distribution": {"mutants": len(muts), "short": len(short)}}]
 
